@@ -27,8 +27,8 @@ theorem sound_core : Gen.G3.sem.soundCoreB = true := by decide +kernel
 
 /-- C01 for this logic: a closed tableau reached by any legal derivation has no countermodel. -/
 theorem c01_valid_sound (arg : Argument) (t : Tableau)
-    (hd : Deriv Gen.G3.sem.soundPart.noQuantPart (trunk Gen.G3.sem arg) t) (hclosed : t.allClosed = true)
+    (hd : Deriv Gen.G3.sem.soundPart (trunk Gen.G3.sem arg) t) (hclosed : t.allClosed = true)
     (M : Struct) (hM : M.Interp Gen.G3.sem) (e : Env M.D) (w0 : M.W) : ¬ Countermodel Gen.G3.sem M e w0 arg :=
-  Props.C01.C01_valid_sound_partial Gen.G3.sem sound_core arg t hd hclosed M hM e w0
+  Props.C01.C01_valid_sound Gen.G3.sem sound_core arg t hd hclosed M hM e w0
 
 end Ptx.Gen.Obl.G3
